@@ -6,7 +6,7 @@
    trace correspondence of tools/props/_mps_trace.py.  Only final statements here. *)
 From Coq Require Import ZArith List Bool.
 From EV Require Import Base.Arith Gen.Brent Model.MpsMachine Proofs.MpsStep Proofs.MpsPhase Proofs.MpsSweep
-  Proofs.MpsTdvpComplete Proofs.DmrgStep Proofs.DmrgPhase Proofs.DmrgSweep Proofs.DmrgContract.
+  Proofs.MpsTdvpComplete Proofs.DmrgStep Proofs.DmrgPhase Proofs.DmrgSweep Proofs.DmrgContract Proofs.MpsTdvpTrace Proofs.DmrgStepContract.
 Import ListNotations.
 Open Scope Z_scope.
 
@@ -72,3 +72,28 @@ Theorem C09_unconverged_sweep_repeats :
     m_prevE s' = Some el /\ m_sweeps s' = m_sweeps s + 1 /\ o_energy s' = rest /\
     m_ev s' = EvSave A :: sweep_trace A s n.
 Proof. exact dmrg_sweep_continue. Qed.
+
+(* A whole DMRG time step, for every energy stream: any number of unconverged sweeps (none records a
+   result; the reference energy becomes the last sweep's final energy), then the FIRST sweep whose final
+   energy is within the tolerance completes the step with exactly one fill_results at the step's end
+   time.  `bl` are the energy blocks of the unconverged sweeps, `bf` the block of the converged one. *)
+Theorem C09_step_completes_at_first_converged_sweep :
+  forall (A : Type) (ar : Arith A) (n : nat) (bl : list (block A)) (s : mstate A) (bf : block A) (rest : list A)
+         (same : bool) (srest : list bool) (next : option A),
+  dmrg_like A s -> m_N s = Z.of_nat n + 3 -> dstart A s ->
+  Forall (block_ok A n) bl -> block_ok A n bf ->
+  o_energy s = flat_map (block_flat A) bl ++ block_flat A bf ++ rest ->
+  unconverged A ar (m_prevE s) (m_etol s) bl ->
+  converges A ar (last_prev A (m_prevE s) bl) (block_last A bf) (m_etol s) = true ->
+  m_sweeps s + Z.of_nat (length bl) + 1 <= m_maxsw s ->
+  o_same s = same :: srest ->
+  (m_tidx s + 1 < m_steps s -> exists t, next = Some t /\ nthZ (m_times s) (m_tidx s + 2) = Some t) ->
+  (m_steps s <= m_tidx s + 1 -> next = None) ->
+  exists s', iter_progress ar ((length bl + 1) * (n + 1 + n + 1)) s = Ok s' /\
+    m_tidx s' = m_tidx s + 1 /\ m_cur s' = m_tgt s /\
+    m_tgt s' = match next with Some t => t | None => m_tgt s end /\
+    (match next with Some _ => dstart A s' | None => True end) /\
+    m_sweeps s' = m_sweeps s + Z.of_nat (length bl) + 1 /\ o_energy s' = rest /\ o_same s' = srest /\
+    m_prevE s' = last_prev A (m_prevE s) bl /\
+    exists new, m_ev s' = new ++ m_ev s /\ flat_map (@fill_of A) new = [(m_tidx s, m_tgt s)].
+Proof. exact dmrg_step_contract. Qed.
